@@ -183,8 +183,8 @@ def rule_E3(ctx: Ctx) -> None:
     # the serial map iterates the helper over the index array in order (builtin map / list)
     m = next(c for c in ast.walk(serial[0].ast) if isinstance(c, ast.Call) and dotted_of(c.func) == "map")
     idx = m.args[1] if len(m.args) > 1 else None
-    d = X.assignments_to(f.node, idx.id) if isinstance(idx, ast.Name) else []
-    ok = len(d) == 1 and isinstance(d[0], ast.Call) and dotted_of(d[0].func) in ("np.arange", "numpy.arange", "range") and ".n_mazes" in X.U(d[0])
+    d = [X.expand_locals(idx, f.node, keep=("cfg_cpy",))] if idx is not None else []
+    ok = len(d) == 1 and isinstance(d[0], ast.Call) and dotted_of(d[0].func) in ("np.arange", "numpy.arange", "range") and len(d[0].args) == 1 and X.U(d[0].args[0]) == "cfg_cpy.n_mazes"
     ctx.judge(f, ok, {"indices": X.U(d[0]) if d else None}, "the helper is mapped over arange(cfg_cpy.n_mazes): exactly n_mazes draws, in index order")
 
 
